@@ -84,10 +84,19 @@ def main():
         sh("git -C /repo checkout -- .")
         sh("cd /verif && git status --porcelain replays | grep '^??' | cut -c4- | xargs -r rm -f")
         sh("cd /verif && git checkout -- evidence replays 2>/dev/null")
-    meta["checks_run_quick_tier"] = results
-    meta["caught_by"] = [c for c, r in results.items() if r["exit"] == 1]
     dst = "/verif/seeded/%s-%s" % (prop, n)
     os.makedirs(dst, exist_ok=True)
+    prev = os.path.join(dst, "meta.json")
+    if os.path.exists(prev) and os.environ.get("SEEDEVAL_RERUN"):
+        # keep the first evaluation; record this one as the result after the checks were strengthened
+        old = json.load(open(prev))
+        old["after_strengthening"] = {"verif_commit": sh("git -C /verif rev-parse --short HEAD")[1].strip(), "checks_run_quick_tier": results,
+                                      "caught_by": [c for c, r in results.items() if r["exit"] == 1]}
+        json.dump(old, open(prev, "w"), indent=1)
+        print("after strengthening caught by:", old["after_strengthening"]["caught_by"] or "NOTHING")
+        return
+    meta["checks_run_quick_tier"] = results
+    meta["caught_by"] = [c for c, r in results.items() if r["exit"] == 1]
     shutil.copy(patch, os.path.join(dst, "patch.diff"))
     shutil.copy(demo, os.path.join(dst, "demo_test.go"))
     if os.path.exists(notes):
